@@ -227,7 +227,8 @@ def getRegisterContent (op : OpK) (lb : LB) (mk : MK) : Except VErr (RegContent 
   | .lineRange a b =>
     match lineBounds lb.gs a, lineBounds lb.gs b with
     | some x, some y =>
-      if op.drains then (drainGs lb.gs x.1 y.2).map (fun r => (.line r.1, r.2))
+      -- changing whole lines leaves one emptied line to type into (fix 377b03c)
+      if op.drains then (drainGs lb.gs x.1 (changeEnd op true lb.gs x.1 y.2)).map (fun r => (.line r.1, r.2))
       else .ok (.line (sliceOr lb.gs x.1 y.2), lb.gs)
     | _, _ => .ok (.empty, lb.gs)
   | _ =>
